@@ -22,6 +22,7 @@ META = {
 }
 
 THEOREMS = [
+    "C20_tables",
     "C20_queue",
     "C20_term",
     "C20_term_always",
@@ -506,7 +507,7 @@ def run(chk):
     rng = chk.rng("trees")
     specs = load_corpus()
     ncorpus = len(specs)
-    specs += [gen_spec(rng, i) for i in range(chk.pick(220, 6000))]
+    specs += [gen_spec(rng, i) for i in range(chk.pick(220, 20000))]
     chk.units["U-readcards"] = {"corpus": ncorpus, "random": len(specs) - ncorpus}
 
     results = pmap(_work, specs, workers=WORKERS, chunksize=4)
